@@ -249,14 +249,32 @@ impl PredicatePushdownRule {
             }
 
             LogicalOperator::Join(join) => {
+                use crate::sql::ast::JoinType;
+
                 let left_tables = self.collect_table_names(join.left);
                 let right_tables = self.collect_table_names(join.right);
-                let pred_tables = self.collect_predicate_tables(predicate);
+                // None: the predicate mentions something that cannot be attributed to one
+                // input (an unqualified column, a subquery): it stays above the join
+                let pred_tables = match self.collect_predicate_tables(predicate) {
+                    Some(tables) => tables,
+                    None => return Ok(None),
+                };
 
                 let refs_left = pred_tables.iter().any(|t| left_tables.contains(*t));
                 let refs_right = pred_tables.iter().any(|t| right_tables.contains(*t));
 
-                if refs_left && !refs_right {
+                // below an outer join a filter may only move onto the preserved input: on the
+                // NULL-supplying input it would let the NULL-extended rows escape the WHERE clause
+                let left_ok = matches!(
+                    join.join_type,
+                    JoinType::Inner | JoinType::Cross | JoinType::Left
+                );
+                let right_ok = matches!(
+                    join.join_type,
+                    JoinType::Inner | JoinType::Cross | JoinType::Right
+                );
+
+                if refs_left && !refs_right && left_ok {
                     let new_filter = crate::sql::planner::LogicalFilter {
                         input: join.left,
                         predicate,
@@ -269,7 +287,7 @@ impl PredicatePushdownRule {
                         condition: join.condition,
                     };
                     Ok(Some((arena.alloc(LogicalOperator::Join(new_join)), None)))
-                } else if refs_right && !refs_left {
+                } else if refs_right && !refs_left && right_ok {
                     let new_filter = crate::sql::planner::LogicalFilter {
                         input: join.right,
                         predicate,
@@ -332,35 +350,86 @@ impl PredicatePushdownRule {
         }
     }
 
-    fn collect_predicate_tables<'a>(&self, expr: &'a crate::sql::ast::Expr<'a>) -> SmallVec<[&'a str; 4]> {
+    fn collect_predicate_tables<'a>(
+        &self,
+        expr: &'a crate::sql::ast::Expr<'a>,
+    ) -> Option<SmallVec<[&'a str; 4]>> {
         let mut tables: SmallVec<[&'a str; 4]> = SmallVec::new();
-        self.collect_expr_tables(expr, &mut tables);
-        tables
+        if self.collect_expr_tables(expr, &mut tables) {
+            Some(tables)
+        } else {
+            None
+        }
     }
 
-    fn collect_expr_tables<'a>(&self, expr: &'a crate::sql::ast::Expr<'a>, tables: &mut SmallVec<[&'a str; 4]>) {
-        use crate::sql::ast::Expr;
+    /// Collects the table qualifiers of every column in `expr`.  Returns false when the
+    /// expression contains something whose tables are not known here (an unqualified column,
+    /// a subquery, a construct this function does not look into).
+    fn collect_expr_tables<'a>(
+        &self,
+        expr: &'a crate::sql::ast::Expr<'a>,
+        tables: &mut SmallVec<[&'a str; 4]>,
+    ) -> bool {
+        use crate::sql::ast::{Expr, FunctionArgs};
         match expr {
-            Expr::Column(col) => {
-                if let Some(table) = col.table {
+            Expr::Literal(_) | Expr::Parameter(_) => true,
+            Expr::Column(col) => match col.table {
+                Some(table) => {
                     tables.push(table);
+                    true
                 }
-            }
+                None => false,
+            },
             Expr::BinaryOp { left, right, .. } => {
-                self.collect_expr_tables(left, tables);
-                self.collect_expr_tables(right, tables);
+                self.collect_expr_tables(left, tables) && self.collect_expr_tables(right, tables)
             }
-            Expr::UnaryOp { expr, .. } => {
-                self.collect_expr_tables(expr, tables);
+            Expr::UnaryOp { expr, .. } => self.collect_expr_tables(expr, tables),
+            Expr::Between {
+                expr, low, high, ..
+            } => {
+                self.collect_expr_tables(expr, tables)
+                    && self.collect_expr_tables(low, tables)
+                    && self.collect_expr_tables(high, tables)
             }
-            Expr::Function(func) => {
-                if let crate::sql::ast::FunctionArgs::Args(args) = &func.args {
-                    for arg in args.iter() {
-                        self.collect_expr_tables(arg.value, tables);
-                    }
-                }
+            Expr::InList { expr, list, .. } => {
+                self.collect_expr_tables(expr, tables)
+                    && list.iter().all(|e| self.collect_expr_tables(e, tables))
             }
-            _ => {}
+            Expr::Like {
+                expr,
+                pattern,
+                escape,
+                ..
+            } => {
+                self.collect_expr_tables(expr, tables)
+                    && self.collect_expr_tables(pattern, tables)
+                    && escape.map_or(true, |e| self.collect_expr_tables(e, tables))
+            }
+            Expr::IsNull { expr, .. } | Expr::Cast { expr, .. } => {
+                self.collect_expr_tables(expr, tables)
+            }
+            Expr::IsDistinctFrom { left, right, .. } => {
+                self.collect_expr_tables(left, tables) && self.collect_expr_tables(right, tables)
+            }
+            Expr::Function(func) => match &func.args {
+                FunctionArgs::Args(args) => args
+                    .iter()
+                    .all(|arg| self.collect_expr_tables(arg.value, tables)),
+                _ => func.over.is_none(),
+            },
+            Expr::Case {
+                operand,
+                conditions,
+                else_result,
+            } => {
+                operand.map_or(true, |e| self.collect_expr_tables(e, tables))
+                    && conditions.iter().all(|c| {
+                        self.collect_expr_tables(c.condition, tables)
+                            && self.collect_expr_tables(c.result, tables)
+                    })
+                    && else_result.map_or(true, |e| self.collect_expr_tables(e, tables))
+            }
+            _ => false,
         }
     }
 
